@@ -1,9 +1,9 @@
 /-
 The invariant of the handle model and the lemma that destroying a closed set of objects keeps it.
 
-`InvX ex s`: `ex = none` is the invariant proper (`Inv`).  `ex = some v` describes the state in the
-middle of `X::removeXRef` / `setModeX` of handle `v`: `v` has already left the ring of its object but
-still holds the pointer.
+`InvX ex s`: `ex` is the set of handles that are in the middle of `X::removeXRef` / `setModeX`: such a
+handle has already left the ring of its object but still holds the pointer.  With the empty set this
+is the invariant proper (`Inv`).
 -/
 import OccaProofs.Lemmas.GcKilled
 
@@ -18,26 +18,23 @@ def slot : Kind → Kind
 theorem chGet_slot (s : St) (k : Kind) (d : Nat) : s.chGet k d = s.chGet (slot k) d := by
   cases k <;> rfl
 
-/-- the safety part of the invariant -/
-structure Inv0 (ex : Option Var) (s : St) : Prop where
+/-- the safety part of the invariant, without "every child is in its device's ring" -/
+structure Inv00 (ex : Var → Prop) (s : St) : Prop where
   notrap : s.trap = false
   alive_lt : ∀ o, s.alive o = true → o < s.next
   dtors_eq : ∀ o, s.dtors o = if (o < s.next ∧ s.alive o = false) then 1 else 0
-  ptr_ok : ∀ v o, s.ptr v = some o → ex ≠ some v →
+  ptr_ok : ∀ v o, s.ptr v = some o → ¬ ex v →
     (s.alive o = true ∧ s.kind o = v.kind.obj ∧ v ∈ s.ring o)
   ptr_live : ∀ v o, s.ptr v = some o → s.vlive v = true
   ring_ptr : ∀ v o, v ∈ s.ring o → s.ptr v = some o
   ring_nodup : ∀ o, (s.ring o).Nodup
-  ex_out : ∀ v, ex = some v → ∀ o, v ∉ s.ring o
+  ex_out : ∀ v, ex v → ∀ o, v ∉ s.ring o
   cur_lt : ∀ d, s.vlive (.cur d) = true → d < s.next
   mem_par : ∀ m, s.alive m = true → s.kind m = .mem → ∃ b, s.par m = some b ∧ m ∈ s.kids b
   kids_ok : ∀ b m, m ∈ s.kids b →
     (s.alive m = true ∧ s.kind m = .mem ∧ s.par m = some b ∧ s.alive b = true
       ∧ (s.kind b = .buf ∨ s.kind b = .pool))
   kids_nodup : ∀ b, (s.kids b).Nodup
-  ch_par : ∀ c, s.alive c = true → s.kind c ≠ .dev → s.kind c ≠ .mem →
-    ∃ d, s.par c = some d ∧ s.alive d = true ∧ s.kind d = .dev
-      ∧ (c ∈ s.chGet (s.kind c) d ∨ (s.kind c = .buf ∧ ∃ p, s.alive p = true ∧ s.inner p = some c))
   ch_ok : ∀ k d c, c ∈ s.chGet k d →
     (s.alive c = true ∧ s.par c = some d ∧ slot (s.kind c) = slot k ∧ s.kind c ≠ .dev ∧ s.kind c ≠ .mem
       ∧ s.alive d = true ∧ s.kind d = .dev)
@@ -47,10 +44,16 @@ structure Inv0 (ex : Option Var) (s : St) : Prop where
       ∧ ∀ k d, i ∉ s.chGet k d)
   inner_inj : ∀ p q i, s.alive p = true → s.alive q = true → s.inner p = some i → s.inner q = some i → p = q
 
+/-- the safety part of the invariant -/
+structure Inv0 (ex : Var → Prop) (s : St) : Prop extends Inv00 ex s where
+  ch_par : ∀ c, s.alive c = true → s.kind c ≠ .dev → s.kind c ≠ .mem →
+    ∃ d, s.par c = some d ∧ s.alive d = true ∧ s.kind d = .dev
+      ∧ (c ∈ s.chGet (s.kind c) d ∨ (s.kind c = .buf ∧ ∃ p, s.alive p = true ∧ s.inner p = some c))
+
 /-- safety part plus "nothing is alive without an owner" (no leak) -/
-structure InvX (ex : Option Var) (s : St) : Prop extends Inv0 ex s where
+structure InvX (ex : Var → Prop) (s : St) : Prop extends Inv0 ex s where
   ring_ne : ∀ o, s.alive o = true → s.kind o ≠ .buf → s.useRefs o = true →
-    (s.ring o ≠ [] ∨ ∃ v, ex = some v ∧ s.ptr v = some o)
+    (s.ring o ≠ [] ∨ ∃ v, ex v ∧ s.ptr v = some o)
   buf_ne : ∀ b, s.alive b = true → s.kind b = .buf →
     (s.kids b ≠ [] ∨ ∃ p, s.alive p = true ∧ s.inner p = some b)
 
@@ -82,8 +85,8 @@ theorem Killed.alive_iff {s s' : St} {K : List Nat} (h : Killed s K s') (o : Nat
     s'.alive o = true ↔ s.alive o = true ∧ o ∉ K := by
   rw [h.alive]; simp
 
-theorem Inv0.killed {ex : Option Var} {s s' : St} {K : List Nat} (hi : Inv0 ex s) (hk : Killed s K s')
-    (hc : Closed0 s K) (hp : Purged s' K) (he : Emptied s' K) : Inv0 ex s' := by
+theorem Inv00.killed {ex : Var → Prop} {s s' : St} {K : List Nat} (hi : Inv00 ex s) (hk : Killed s K s')
+    (hc : Closed0 s K) (hp : Purged s' K) (he : Emptied s' K) : Inv00 ex s' := by
   have al := hk.alive_iff
   constructor
   · rw [hk.trap]; exact hi.notrap
@@ -157,35 +160,6 @@ theorem Inv0.killed {ex : Option Var} {s s' : St} {K : List Nat} (hi : Inv0 ex s
       (al b).mpr ⟨a4, hbK⟩, by rw [hk.kind]; exact a5⟩
   · intro b
     exact hk.kidsN b (hi.kids_nodup b)
-  · intro c hca hk1 hk2
-    rw [hk.kind] at hk1 hk2
-    obtain ⟨hc1, hc2⟩ := (al c).mp hca
-    obtain ⟨d, hd1, hd2, hd3, hd4⟩ := hi.ch_par c hc1 hk1 hk2
-    have hdK : d ∉ K := by
-      intro hdK
-      rcases hd4 with hd4 | ⟨hkb, p, hp1, hp2⟩
-      · exact hc2 (hc.chC d hdK _ c hd4)
-      · -- c is the inner buffer of pool p, which is a child of d
-        obtain ⟨q1, q2, q3, q4, q5, q6⟩ := hi.inner_ok p c hp1 hp2
-        have hkp1 : s.kind p ≠ .dev := by rw [q1]; decide
-        have hkp2 : s.kind p ≠ .mem := by rw [q1]; decide
-        obtain ⟨d', e1, e2, e3, e4⟩ := hi.ch_par p hp1 hkp1 hkp2
-        have : d' = d := by
-          rw [q5, e1] at hd1
-          cases hd1
-          rfl
-        subst this
-        rcases e4 with e4 | ⟨e5, _⟩
-        · exact hc2 (hc.innerC p (hc.chC d' hdK _ p e4) c hp2)
-        · rw [q1] at e5
-          cases e5
-    refine ⟨d, by rw [hk.par c hc2 hc1]; exact hd1, (al d).mpr ⟨hd2, hdK⟩, by rw [hk.kind]; exact hd3, ?_⟩
-    rw [hk.kind]
-    rcases hd4 with hd4 | ⟨hkb, p, hp1, hp2⟩
-    · exact Or.inl (hk.chU _ d c hd4 hc1 hc2 hdK)
-    · refine Or.inr ⟨hkb, p, (al p).mpr ⟨hp1, ?_⟩, by rw [hk.inner]; exact hp2⟩
-      intro hpK
-      exact hc2 (hc.innerC p hpK c hp2)
   · intro k d c hcm
     have h1 := hk.chS k d c hcm
     have hcK : c ∉ K := hp.2 k d c hcm
@@ -217,7 +191,41 @@ theorem Inv0.killed {ex : Option Var} {s s' : St} {K : List Nat} (hi : Inv0 ex s
     rw [hk.inner] at hpi hqi
     exact hi.inner_inj p q i ((al p).mp hpa).1 ((al q).mp hqa).1 hpi hqi
 
-theorem InvX.killed {ex : Option Var} {s s' : St} {K : List Nat} (hi : InvX ex s) (hk : Killed s K s')
+theorem Inv0.killed {ex : Var → Prop} {s s' : St} {K : List Nat} (hi : Inv0 ex s) (hk : Killed s K s')
+    (hc : Closed0 s K) (hp : Purged s' K) (he : Emptied s' K) : Inv0 ex s' := by
+  have al := hk.alive_iff
+  refine ⟨hi.toInv00.killed hk hc hp he, ?_⟩
+  · intro c hca hk1 hk2
+    rw [hk.kind] at hk1 hk2
+    obtain ⟨hc1, hc2⟩ := (al c).mp hca
+    obtain ⟨d, hd1, hd2, hd3, hd4⟩ := hi.ch_par c hc1 hk1 hk2
+    have hdK : d ∉ K := by
+      intro hdK
+      rcases hd4 with hd4 | ⟨hkb, p, hp1, hp2⟩
+      · exact hc2 (hc.chC d hdK _ c hd4)
+      · -- c is the inner buffer of pool p, which is a child of d
+        obtain ⟨q1, q2, q3, q4, q5, q6⟩ := hi.inner_ok p c hp1 hp2
+        have hkp1 : s.kind p ≠ .dev := by rw [q1]; decide
+        have hkp2 : s.kind p ≠ .mem := by rw [q1]; decide
+        obtain ⟨d', e1, e2, e3, e4⟩ := hi.ch_par p hp1 hkp1 hkp2
+        have : d' = d := by
+          rw [q5, e1] at hd1
+          cases hd1
+          rfl
+        subst this
+        rcases e4 with e4 | ⟨e5, _⟩
+        · exact hc2 (hc.innerC p (hc.chC d' hdK _ p e4) c hp2)
+        · rw [q1] at e5
+          cases e5
+    refine ⟨d, by rw [hk.par c hc2 hc1]; exact hd1, (al d).mpr ⟨hd2, hdK⟩, by rw [hk.kind]; exact hd3, ?_⟩
+    rw [hk.kind]
+    rcases hd4 with hd4 | ⟨hkb, p, hp1, hp2⟩
+    · exact Or.inl (hk.chU _ d c hd4 hc1 hc2 hdK)
+    · refine Or.inr ⟨hkb, p, (al p).mpr ⟨hp1, ?_⟩, by rw [hk.inner]; exact hp2⟩
+      intro hpK
+      exact hc2 (hc.innerC p hpK c hp2)
+
+theorem InvX.killed {ex : Var → Prop} {s s' : St} {K : List Nat} (hi : InvX ex s) (hk : Killed s K s')
     (hc : Closed s K) (hp : Purged s' K) (he : Emptied s' K) : InvX ex s' := by
   have al := hk.alive_iff
   refine ⟨hi.toInv0.killed hk hc.toClosed0 hp he, ?_, ?_⟩
